@@ -369,14 +369,18 @@ func (pc *peerConn) readFrame(d time.Duration) *RefFrame {
 	}
 }
 
-// peerClosed reports whether the client side closed this connection (EOF/reset within d).
+// peerClosed reports whether the client side closed this connection: EOF / reset is seen before the connection has
+// been idle for d (unread data still in flight is drained first, however much there is; 5 s at most).
 func (pc *peerConn) peerClosed(d time.Duration) bool {
-	pc.c.SetReadDeadline(time.Now().Add(d))
-	tmp := make([]byte, 1<<12)
-	for {
+	tmp := make([]byte, 1<<16)
+	limit := time.Now().Add(5 * time.Second)
+	for time.Now().Before(limit) {
+		pc.c.SetReadDeadline(time.Now().Add(d))
 		n, err := pc.c.Read(tmp)
 		if n > 0 {
-			pc.buf = append(pc.buf, tmp[:n]...)
+			if len(pc.buf) < 1<<20 {
+				pc.buf = append(pc.buf, tmp[:n]...)
+			}
 			continue
 		}
 		if err != nil {
@@ -386,6 +390,7 @@ func (pc *peerConn) peerClosed(d time.Duration) bool {
 			return true
 		}
 	}
+	return false
 }
 func (pc *peerConn) send(b []byte) error { _, err := pc.c.Write(b); return err }
 func (pc *peerConn) close()              { pc.c.Close() }
